@@ -205,6 +205,9 @@ def gen_check(spec, mod, seed, tier="quick"):
     # ---- C06 / C07 / C08 -------------------------------------------------------------------
     depth = 6 if tier == "quick" else 9
     randoms = 60 if tier == "quick" else 600
+    if n > 400:
+        # very large enums: every operation is still exercised, but with few, short histories
+        depth, randoms = (3, 6) if n <= 5000 else (2, 2)
     f_iter = spec.item_name("iter")
     if f_iter:
         w("        out.guard(\"C06\", \"iter\", |out| { check_iterator(\"C06\", \"iter()\", &|| %s::%s(), &disc, &all, seed, %d, %d, out); });" % (En, f_iter, depth, randoms))
